@@ -929,6 +929,86 @@ def check_empty_root(ctx: core.Ctx, lang: str, spelling: str, support: typing.Op
         shutil.rmtree(sb, ignore_errors=True)
 
 
+NOSTROP_KEYWORDS = {"c": ["register", "typedef", "double"], "cpp": ["register", "new", "namespace"], "py": ["def", "class", "print"]}
+
+
+def check_nostrop(ctx: core.Ctx, lang: str, spelling: str) -> typing.List[tuple]:
+    """
+    Stropping switched off by configuration (`enable_stropping: false`, a documented key of every language section): the
+    namespace components are then used verbatim.  Directed namespaces whose components are keywords of the target: every type
+    file is at <outdir>/<components>/<Short>_<M>_<m><ext>, and the relative path under which a type is REFERENCED (include /
+    import in the same root namespace and in a dependent root namespace) names the file that was generated.
+    """
+    sb = pathlib.Path(tempfile.mkdtemp(prefix="vf-c11n-"))
+    try:
+        kws = NOSTROP_KEYWORDS[lang]
+        r1, r2 = sb / "in" / "regns", sb / "in" / "app"
+        defs = {
+            r1 / kws[0] / "Value.1.0.dsdl": "uint8 x\n@sealed\n",
+            r1 / kws[0] / kws[1] / "Deep.1.2.dsdl": f"regns.{kws[0]}.Value.1.0 v\n@sealed\n",
+            r1 / kws[2] / "Other.2.0.dsdl": f"regns.{kws[0]}.{kws[1]}.Deep.1.2[<=2] ds\n@extent 512\n",
+            r1 / "User.1.0.dsdl": f"regns.{kws[0]}.Value.1.0 v\nregns.{kws[2]}.Other.2.0 o\n@sealed\n",
+            r2 / "Client.1.0.dsdl": f"regns.{kws[0]}.Value.1.0 v\nregns.{kws[0]}.{kws[1]}.Deep.1.2 d\n@sealed\n",
+        }
+        for f, text in defs.items():
+            f.parent.mkdir(parents=True, exist_ok=True)
+            f.write_text(text)
+        cfg = sb / "in" / "nostrop.yaml"
+        cfg.write_text(f"nunavut.lang.{lang}:\n  enable_stropping: false\n")
+        cwd = sb / "cwd"
+        (cwd / "x").mkdir(parents=True)
+        outdir, outabs = outdir_arg(spelling, cwd, sb)
+        ext = DEFAULT_EXT[lang]
+        res: typing.List[tuple] = []
+        before = tool.snapshot(sb)
+        for root, lookup in ((r1, None), (r2, r1)):
+            argv = ["--target-language", lang, "--experimental-languages", "--outdir", outdir, f"--configuration={cfg}"]
+            if lookup:
+                argv += ["--lookup-dir", str(lookup)]
+            argv += [str(root)]
+            rc, _, err = tool.run_sub(argv, cwd=str(cwd))
+            if rc != 0:
+                return [("nostrop|run-fails", f"nnvg {' '.join(argv)}: {err[-400:]}")]
+        created = snap_diff(before, tool.snapshot(sb))
+        outrel = os.path.relpath(outabs, sb)
+        outside = [k for k in created if not (k.rstrip("/") == outrel or k.startswith(outrel + "/") or outrel.startswith(k.rstrip("/") + "/"))]
+        if outside:
+            res.append(("run|file-outside-outdir|stropping-disabled", f"created outside --outdir: {outside[:5]}"))
+        want = {}
+        for f in defs:
+            root = r1 if str(f).startswith(str(r1)) else r2
+            comps = [root.name] + list(f.relative_to(root).parts[:-1])
+            short, major, minor, _ = f.name.split(".")
+            want[".".join(comps + [short])] = "/".join(comps + [f"{short}_{major}_{minor}{ext}"])
+        files = {os.path.relpath(os.path.join(dp, fn), outabs) for dp, _, fns in os.walk(outabs) for fn in fns}
+        ctx.case(("nostrop", lang, spelling), True, sample={"level": "cli", "stropping disabled": True, "lang": lang, "outdir": spelling, "types": sorted(want)},
+                 classes=["nostrop", "nostrop.lang." + lang])
+        for t, rel in sorted(want.items()):
+            if rel not in files:
+                near = sorted(x for x in files if x.endswith("/" + rel.rsplit("/", 1)[1]))
+                res.append((f"nostrop|type-file-not-at-verbatim-namespace-path|{lang}", f"enable_stropping: false: {t} expected at {rel!r}; files with that name: {near}"))
+        # what dependents refer to must be what was generated
+        for rel in sorted(files):
+            if "nunavut" in rel.split("/")[0]:
+                continue
+            text = (outabs / rel).read_text(errors="replace")
+            if lang in ("c", "cpp"):
+                for inc in re.findall(r'^\s*#\s*include\s*[<"]((?:regns|app)/[^>"]+)[>"]', text, re.M):
+                    if inc not in files:
+                        res.append((f"nostrop|referenced-path-differs-from-generated-path|{lang}", f"{rel} includes {inc!r}, which is not among the generated files {sorted(f for f in files if f.endswith(ext))[:8]}"))
+            else:
+                for mod in re.findall(r"^\s*import\s+((?:regns|app)[\w.]*)", text, re.M) + re.findall(r"^\s*from\s+((?:regns|app)[\w.]*)\s+import", text, re.M):
+                    cand = mod.replace(".", "/")
+                    if cand + ".py" not in files and cand + "/__init__.py" not in files:
+                        res.append((f"nostrop|referenced-path-differs-from-generated-path|{lang}", f"{rel} imports {mod!r}, which no generated file provides"))
+        out: typing.Dict[str, tuple] = {}
+        for r in res:
+            out.setdefault(r[0], r)
+        return list(out.values())
+    finally:
+        shutil.rmtree(sb, ignore_errors=True)
+
+
 def check_real(ctx: core.Ctx, case, env: Env, sub: bool = False) -> typing.List[tuple]:
     li = env.lang(case["lang"], case.get("ext"), case.get("stem"))
     lang = li.name
@@ -1135,6 +1215,11 @@ def run(ctx: core.Ctx):
                 for support in (None, "only", "always"):
                     for sig, what in check_empty_root(ctx, lang, sp, support):
                         ctx.fail(sig, what, {"kind": "empty-root", "lang": lang, "outdir": sp, "support": support})
+        # stropping switched off by configuration: verbatim keyword components, generated path == referenced path
+        for lang in ("c", "cpp"):
+            for sp in ("rel", "abs"):
+                for sig, what in check_nostrop(ctx, lang, sp):
+                    ctx.fail(sig, what, {"kind": "nostrop", "lang": lang, "outdir": sp})
         ctx.extra["api_cases"] = slice_n * (workers + 1)
     finally:
         pool.terminate()
@@ -1216,6 +1301,8 @@ def replay(ctx: core.Ctx, case):
     try:
         if case.get("kind") == "empty-root":
             return check_empty_root(ctx, case["lang"], case["outdir"], case.get("support"))
+        if case.get("kind") == "nostrop":
+            return check_nostrop(ctx, case["lang"], case["outdir"])
         if case.get("real"):
             return check_real(ctx, case, env, bool(case.get("sub")))
         return check_api(ctx, case, env, hashseed=True)
